@@ -172,6 +172,39 @@ def handmade():
                     new_shared_values=(
                         fdl.Config(first, x=R('new_shared_values', (I(1),))),
                         fdl.Config(second, x=R('old', (A('y'), K('j'))))))))
+  # a value of old replaced / deleted through one path of a shared parent
+  # while another change stores a reference to it spelled through the other
+  # path; the value may be empty (falsy)
+  def old2(v, parent):
+    inner = fdl.Config(N.node_b, x=v, y='inner')
+    return fdl.Config(N.node_kw, a=inner, c=inner,
+                      **{parent: fdl.Config(N.node_b, y=parent)})
+  vals = {'emptylist': lambda: [], 'emptydict': lambda: {},
+          'list': lambda: [7], 'dict': lambda: {'k': 1},
+          'cfg': lambda: fdl.Config(N.Other), 'emptytuple': lambda: (),
+          'cfgnoargs': lambda: fdl.Config(N.node),
+          'listofempty': lambda: [[]]}
+  for vn, mk in vals.items():
+    for parent in ('z', 'A'):
+      for via, ref in (('a', 'c'), ('c', 'a')):
+        for op in ('modify', 'delete'):
+          chg = (diffing.ModifyValue((A(via), A('x')), [1, 2])
+                 if op == 'modify' else diffing.DeleteValue((A(via), A('x'))))
+          out.append((f'alias-{vn}-{parent}-{via}-{op}', old2(mk(), parent),
+                      diffing.Diff(changes=(
+                          chg, diffing.SetValue((A(parent), A('x')), R(
+                              'old', (A(ref), A('x'))))),
+                                   new_shared_values=())))
+  # the same with the value itself shared directly below the root
+  for vn, mk in vals.items():
+    for op in ('modify', 'delete'):
+      v = mk()
+      o = fdl.Config(N.node_kw, a=v, c=v, z=fdl.Config(N.node_b, y='z'))
+      chg = (diffing.ModifyValue((A('a'),), [1, 2])
+             if op == 'modify' else diffing.DeleteValue((A('a'),)))
+      out.append((f'alias-direct-{vn}-{op}', o, diffing.Diff(changes=(
+          chg, diffing.SetValue((A('z'), A('x')), R('old', (A('c'),)))),
+                                                            new_shared_values=())))
   # tag operations and callable update with argument deletion
   t = old()
   fdl.add_tag(t, 'x', N.TagA)
